@@ -82,6 +82,14 @@ let () = iter_lines (fun line ->
       (match wa_read h with
        | None -> "unsupported"
        | Some w -> pruns (war_obs (h, w)) (run_held wWW_AUTH war_step war_obs id waop (h, w) ops))
+  | "mp" :: init :: d0 :: ops ->
+      let st = (kvs s_of init, kvs s_of d0) in
+      pruns (mp_obs st) (run_held cONTENT_TYPE mp_step mp_obs id (dop (fun x -> s_of (sub1 x))) st ops)
+  | "walist" :: init :: items ->
+      let item t = (match split ';' t with
+        | [ty; tok; ps] -> { wa_type = s_of ty; wa_token = ov tok; wa_params = kvs ov ps } | _ -> failwith "walist") in
+      (match wa_assign_list (kvs s_of init) (List.map item items) with
+       | (h, None) -> pout (OPairs h) | (_, Some e) -> pout (OErr e))
   | ["pl"; s] -> "L" ^ pl "/" (parse_list_header (s_of s))
   | ["pd"; s] -> (match parse_dict_header (s_of s) with None -> "unsupported" | Some d -> pcd d)
   | ["dl"; l] -> "S" ^ ps (dump_list (lst '/' l))
